@@ -67,6 +67,11 @@ THEOREMS = [
     "OllamaVerif.C06.refines_step_total",
     "OllamaVerif.C06.refines_total_nonvacuous",
     "OllamaVerif.C06.specStepT_perm",
+    "OllamaVerif.C06.window_exact_on_contract",
+    "OllamaVerif.C06.visible_complete_eq",
+    "OllamaVerif.C06.subQ_runT",
+    "OllamaVerif.C06.nonNegS_runT",
+    "OllamaVerif.C06.window_contract_nonvacuous",
     "OllamaVerif.C06.window_exact_append_only",
     "OllamaVerif.C06.window_exact_append_only_ops",
     "OllamaVerif.C06.runS_visible_eq_runI",
